@@ -83,7 +83,7 @@ def key_of(v):
 def main(tier, seed):
     from framework import Runner, Query
     R = Runner('C09', tier, seed); R.setup()
-    R.blocks = models_str.STD_BLOCKS if tier == 'quick' else None       # quick: names over Latin, CJK, fullwidth and pictograph blocks; thorough: all of Unicode
+    R.blocks = models_str.STD_BLOCKS       # symbolic name chars range over Latin..Latin Ext-B, CJK punctuation + ideographs, fullwidth forms, pictographs (thorough adds an all-Unicode query where noted)
     quick = tier == 'quick'
     c01.load_keywords(R)
     R.assumptions += ['tokens = atoms (prefix+name), brackets, separators, connecters, copulas, punctuation, stamp brackets / kind marker / number, truth and budget brackets, numbers and separators; no space is inserted inside an atom',
